@@ -605,6 +605,16 @@ func (c *Ctx) defFragmentFns() map[*ssa.Function]string {
 // needleKey recognises "{{" + k + "}}" (optionally converted to []byte) and returns k.
 func needleKey(v ssa.Value) (ssa.Value, bool) {
 	v = stripConv(v)
+	// a helper that builds the reference text from the name: func ref(name string) string { return "{{" + name + "}}" }
+	if call, ok := v.(*ssa.Call); ok {
+		if sf := staticFn(&call.Call); sf != nil && len(sf.Blocks) == 1 && len(sf.Params) == 1 && len(call.Call.Args) == 1 {
+			if r, ok := sf.Blocks[0].Instrs[len(sf.Blocks[0].Instrs)-1].(*ssa.Return); ok && len(r.Results) == 1 {
+				if k, ok := needleKey(r.Results[0]); ok && k == ssa.Value(sf.Params[0]) {
+					return call.Call.Args[0], true
+				}
+			}
+		}
+	}
 	ops := stringOperands(v, 0)
 	if len(ops) != 3 {
 		return nil, false
@@ -684,6 +694,9 @@ func (c *Ctx) checkDefFragment(fn *ssa.Function, loops []*mapLoop) string {
 			case *ssa.Call:
 				if lm.IsLoud(in) || isLogCall(x) || pureCall(x) {
 					continue
+				}
+				if _, isNeedle := needleKey(x); isNeedle {
+					continue // a helper that only builds "{{name}}"
 				}
 				if f := staticCallee(&x.Call); isFn(f, "bytes", "NewBuffer") || isFn(f, "bytes", "NewBufferString") || isMeth(f, "bytes", "Buffer", "Bytes") || isMeth(f, "bytes", "Buffer", "String") {
 					continue
